@@ -154,6 +154,66 @@ theorem popWait_neg (r : SyncRing) (w : Int) (ticks : List Int) (hw : w < 0) :
     simp only [SyncRing.popWait, hw, if_true]
     exact popSpin_fail r1 hp fuel
 
+/-- A timed `PushWait` that answers `false` has not pushed: whatever the tick times are
+(also when the expiring tick is the one on which a push would succeed — the loop attempts
+the push BEFORE it tests the expiry), the ring it leaves is the ring it found. -/
+theorem pushTicks_false (v w : Int) :
+    ∀ (ticks : List Int) (r r1 : SyncRing),
+      pushTicks v w ticks r = some (.done (r1, false)) → r1 = r := by
+  intro ticks
+  induction ticks with
+  | nil => intro r r1 h; simp [pushTicks] at h
+  | cons now ts ih =>
+    intro r r1 h
+    simp only [pushTicks] at h
+    cases hp : r.push v with
+    | none => simp [hp] at h
+    | some res =>
+      obtain ⟨r2, ok⟩ := res
+      cases ok with
+      | true => simp [hp] at h
+      | false =>
+        have := push_false_eq hp
+        subst this
+        simp only [hp] at h
+        split at h
+        · simp only [Option.some.injEq, WaitRes.done.injEq, Prod.mk.injEq] at h; exact h.1.symm
+        · exact ih r2 r1 h
+
+/-- ... and on the expiring tick a push that succeeds is reported as `true`. -/
+theorem pushTicks_success_on_expiry (v w now : Int) (ts : List Int) (r r1 : SyncRing)
+    (hp : r.push v = some (r1, true)) :
+    pushTicks v w (now :: ts) r = some (.done (r1, true)) := by
+  simp only [pushTicks, hp]
+
+theorem popTicks_false (w : Int) :
+    ∀ (ticks : List Int) (r r1 : SyncRing) (x : Int),
+      popTicks w ticks r = some (.done (r1, x, false)) → r1 = r := by
+  intro ticks
+  induction ticks with
+  | nil => intro r r1 x h; simp [popTicks] at h
+  | cons now ts ih =>
+    intro r r1 x h
+    simp only [popTicks] at h
+    cases hp : r.pop with
+    | none => simp [hp] at h
+    | some res =>
+      obtain ⟨r2, y, ok⟩ := res
+      cases ok with
+      | true => simp [hp] at h
+      | false =>
+        have := (pop_false_eq hp).1
+        subst this
+        simp only [hp] at h
+        split at h
+        · simp only [Option.some.injEq, WaitRes.done.injEq, Prod.mk.injEq] at h; exact h.1.symm
+        · exact ih r2 r1 x h
+
+theorem popTicks_success_on_expiry (w now : Int) (ts : List Int) (r r1 : SyncRing) (x : Int)
+    (hp : r.pop = some (r1, x, true)) :
+    popTicks w (now :: ts) r = some (.done (r1, x, true)) := by
+  simp only [popTicks, hp]
+
 /-- In the driver a wait with `maxWait ≥ 0` prints what the plain operation prints. -/
 theorem step_pushW (r : SyncRing) (v : Int) (w : Nat) : r.step (.pushW v w) = r.step (.push v) := by
   simp only [SyncRing.step,
